@@ -4,6 +4,8 @@
 From Coq Require Import ZArith List Bool Lia.
 Import ListNotations.
 From XO Require Import Slots Chunks ChunksProofs AllocSpec AllocProofs BufOps BufOpsProofs.
+From XO Require Import AllocSpec BufOps Types Format.
+From XO Require CopyBytes HeapCompose.
 Open Scope Z_scope.
 
 (* SInv s: live regions pairwise disjoint, inside [0,cap), each start a multiple
@@ -51,6 +53,17 @@ Proof. vm_compute. reflexivity. Qed.
 Theorem C04_checker_complete : forall pre live lost o ob post live' lost',
   safe_step (abs pre live lost) o ob (abs post live' lost') -> safe_stepb pre live o ob post = true.
 Proof. exact safe_stepb_complete. Qed.
+(* ALLOCATOR AND LAYOUT COMPOSED: whatever the allocator does within its safety contract when a new object is
+   constructed (hand out free or new bytes, after growing the buffer or not), every object lying inside a live
+   region keeps decoding to the same value with the same size (any accepted bytes, reference-free types) *)
+Theorem C04_construction_keeps_live_objects : forall s s' size al o m m1 bs t off v sz r,
+  SInv s -> safe_step s (OAlloc size al) (RetOff o) s' ->
+  len m = s_cap s -> len m1 = s_cap s' -> CopyBytes.agree_on m m1 0 (len m) ->
+  len bs = size ->
+  In r (s_live s) -> r_off r <= off -> off + sz <= r_off r + r_size r ->
+  has_refs t = false -> dec t m off = Some (v, sz) ->
+  dec t (wr m1 o bs) off = Some (v, sz).
+Proof. exact HeapCompose.construction_keeps_live_objects. Qed.
 Print Assumptions C04_step.
 Print Assumptions C04_all_histories.
 Print Assumptions C04_fresh_buffer.
@@ -59,3 +72,4 @@ Print Assumptions C04_checker_sound.
 Print Assumptions C04_walk_sound.
 Print Assumptions C04_data_preserved_by_grow.
 Print Assumptions C04_checker_complete.
+Print Assumptions C04_construction_keeps_live_objects.
